@@ -1,2 +1,3 @@
 import MatidProps.C19
 import MatidProps.C14
+import MatidProps.C15
